@@ -522,3 +522,125 @@ EXIT_STACK_UNIT = Unit("C09.elaborate_exit_stack", ES, es_setup,
                                     "format_funcname / format_funcargs / repr are total"])
 UNITS_C09.append(EXIT_STACK_UNIT)
 UNITS.append(EXIT_STACK_UNIT)
+
+
+# ------------------------------------------------------------------------------------------------ C14: to_thread.run_sync hop
+# The worker thread is THE thread whose name object is the frame's thread_name (identity: Trio passes the very str object, and
+# names are not unique), its stack is cut just inward of worker_fn, and the Trio task's rest is kept iff the task is not simply
+# waiting for the thread (reentrant from_thread call).
+TTRS = G + "glue_trio.elaborate_to_thread_run_sync"
+register_class("thread")
+t_anc = Function("fback_anc_t", Val, IntSort(), Val)         # ghost: n-th f_back ancestor of the thread's current frame
+
+
+def ttrs_setup(ex, p):
+    frame = sym_ref(p, "frame", "Frame")
+    nxt = sym_any(p, "next_inner")
+    pyf = p.getf(frame.t, "pyframe")
+    fl = p.getf(pyf, "f_locals")
+    p.pc += [is_kind(pyf, "frame"), Val.a(pyf) >= 0, is_exact_kind(fl, "dict"), Val.a(fl) >= 0]
+    threads = sym_seq(p, "all_threads", "list")
+    p.pc.append(p.lo(threads.t) == 0)
+    H0 = p.snap()
+    p.add_schema(threads.t, lambda pth, j: Implies(And(j >= 0, j < H0.length(threads.t)),
+                                                   And(is_kind(H0.raw(threads.t, j), "thread"), Val.a(H0.raw(threads.t, j)) >= 0)))
+    frames = sym_ref(p, "current_frames", "dict")
+    H1 = p.snap()
+    p.add_dschema(frames.t, lambda pth, kk: Implies(H1.dhas(frames.t, kk), And(is_kind(H1.dget(frames.t, kk), "frame"), Val.a(H1.dget(frames.t, kk)) >= 0)))
+    wf = p.dget(fl, ex.const(p, "worker_fn").t)
+    p.pc.append(Or(Val.is_none(wf), And(is_kind(wf, "function"), Val.a(wf) >= 0)))        # Trio's local worker_fn is a function
+    ex.unit.bindings["threading.enumerate"] = lambda ex_, p_, a, k, n: [("ok", p_, SV(threads.t, ty="list"))]
+    ex.unit.bindings["sys._current_frames"] = lambda ex_, p_, a, k, n: [("ok", p_, SV(frames.t, ty="dict"))]
+    p.env.update(frame=frame, next_inner=nxt)
+    ex.unit_args = dict(frame=frame, next_inner=nxt, threads=threads, frames=frames, fl=fl, H0=p.snap())
+    return ex.unit_args
+
+
+def ttrs_scan_inv():
+    def none_before(ctx, pth, j):
+        a = ctx.ex.unit_args
+        H0 = a["H0"]
+        tn = H0.dget(a["fl"], ctx.ex.const(ctx.p, "thread_name").t)
+        return Implies(And(j >= 0, j < ctx.k), H0.getf(pth.read(a["threads"].t, j, H0), "name") != tn)
+    return Inv("C14.worker_thread.scan", qf=lambda ctx: BoolVal(True), header="threading.enumerate()",
+               foralls=[(lambda p_: p_.ghost["$threads"], none_before)])
+
+
+def ttrs_walk_inv():
+    def setup(ctx):
+        ctx.p.ghost["tw_n"] = IntVal(0)
+        ctx.p.pc.append(t_anc(ctx.v("inner_frame"), 0) == ctx.v("inner_frame"))
+    def ghost_havoc(ctx):
+        ctx.p.ghost["tw_n"] = fresh_int("tw_n")
+    def qf(ctx):
+        n = ctx.p.ghost["tw_n"]
+        cur, prev, inner = ctx.v("current"), ctx.v("previous"), ctx.v0("inner_frame")
+        return And(n >= 0, cur == t_anc(inner, n), prev == If(n == 0, NONE, t_anc(inner, n - 1)), ctx.v("inner_frame") == inner,
+                   Or(Val.is_none(cur), And(is_kind(cur, "frame"), Val.a(cur) >= 0)), ctx.v("thread") == ctx.v0("thread"))
+    def defs(ctx):
+        n = ctx.p.ghost["tw_n"]
+        inner = ctx.v0("inner_frame")
+        cur = ctx.v("current")
+        fb = ctx.H.getf(cur, "f_back")
+        return And(t_anc(inner, 0) == inner, t_anc(inner, n + 1) == fb,
+                   Implies(is_kind(cur, "frame"), Or(Val.is_none(fb), And(is_kind(fb, "frame"), Val.a(fb) >= 0))))
+    return Inv("C14.worker_thread.walk_to_worker_fn", qf=qf, defs=defs, setup=setup, ghost_havoc=ghost_havoc, header="current is not None")
+
+
+def ttrs_before_stmt(ex, n, p):
+    if isinstance(n, ast.Assign) and ast.unparse(n).replace(" ", "") == "current=current.f_back" and "tw_n" in p.ghost:
+        p.ghost["tw_n"] = p.ghost["tw_n"] + 1
+    if isinstance(n, ast.For):
+        p.ghost["$threads"] = ex.unit_args["threads"].t
+
+
+def ttrs_post(ctx):
+    a = ctx.args
+    H0, H = a["H0"], ctx.H
+    r = ctx.result.t
+    const = lambda s_: ctx.ex.const(ctx.p, s_).t
+    tn = H0.dget(a["fl"], const("thread_name"))
+    wf = H0.dget(a["fl"], const("worker_fn"))
+    k = ctx.p.ghost.get("exit_k:for#1")
+    th = ctx.env.get("thread")
+    spliced = Not(Val.is_none(r))
+    if th is None or k is None:
+        return Val.is_none(r)
+    T = th.t
+    ident = H0.getf(T, "ident")
+    n = ctx.p.ghost.get("tw_n")
+    inner = ctx.env.get("inner_frame")
+    if n is None or inner is None:
+        return Val.is_none(r)
+    sl = If(is_kind(r, "StackSlice"), r, H.at(r, 0))
+    waiting = And(is_kind(a["next_inner"].t, "Frame"), ctx.ex.eq(ctx.p, SV(H0.getf(a["next_inner"].t, "funcname")), ctx.ex.const(ctx.p, "wait_task_rescheduled")))
+    return Implies(spliced,
+                   And(H0.getf(T, "name") == tn,                                   # identity of the name object, first such thread
+                       is_kind(sl, "StackSlice"), H.getf(sl, "inner") == inner.t,
+                       inner.t == If(H0.dhas(a["frames"].t, If(ctx.ex.truthy(ctx.p, SV(ident)), ident, mkint(0))),
+                                     H0.dget(a["frames"].t, If(ctx.ex.truthy(ctx.p, SV(ident)), ident, mkint(0))), NONE),
+                       n >= 1, H.getf(sl, "outer") == t_anc(inner.t, n - 1),                # the frame just inward of worker_fn
+                       H0.getf(t_anc(inner.t, n), "f_code") == H0.getf(wf, "__code__"),
+                       H.getf(a["frame"].t, "hide") == mkbool(True),
+                       If(waiting, r == sl, And(is_exact_kind(r, "tuple"), H.length(r) == 2, H.at(r, 1) == a["next_inner"].t))))
+
+
+funcname_of_frame = Function("Frame.funcname", Val, Val)
+
+
+def ttrs_unit():
+    from .types_fmt import str_prop
+    return Unit("C14.elaborate_to_thread_run_sync", TTRS, ttrs_setup,
+                post=[Clause("C14.to_thread.splices_the_frames_of_the_thread_named_by_identity", ttrs_post)],
+                bindings=dict(EXTRACT_BINDINGS), methods=dict(STD_METHODS), ctors=dict(CTORS), known_classes=KNOWN,
+                props={("Frame", "funcname"): str_prop(funcname_of_frame)},
+                invariants={(TTRS, "for#1"): ttrs_scan_inv(), (TTRS, "while#1"): ttrs_walk_inv()}, before_stmt=ttrs_before_stmt,
+                field_types={"f_locals": "dict"}, options=dict(iter_any_seq=True),
+                allowed_raise=lambda ctx: BoolVal(False),
+                assumptions=["threading.enumerate() lists thread objects; sys._current_frames() maps idents to frames; ghost fback_anc_t is the "
+                             "n-th f_back ancestor (defining equations)", "Frame.funcname is an abstract str-valued property"])
+
+
+TTRS_UNIT = ttrs_unit()
+UNITS_C14.append(TTRS_UNIT)
+UNITS.append(TTRS_UNIT)
